@@ -123,6 +123,16 @@ func build(v VS) any {
 		return map[string]any(nil)
 	case "nslice":
 		return []any(nil)
+	case "nms":
+		return map[string]string(nil)
+	case "nmi":
+		return map[any]any(nil)
+	case "mnamed": // a named map type: not a map[string]string for a type assertion
+		out := namedProps{}
+		for i := range v.L {
+			out[fmt.Sprint(build(v.K[i]))] = fmt.Sprint(build(v.L[i]))
+		}
+		return out
 	case "p": // pointer to the element
 		switch x := build(*v.E).(type) {
 		case nil:
@@ -373,7 +383,7 @@ func wellFormedVS(v *VS, budget *int) bool {
 		if v.E == nil {
 			return false
 		}
-	case "m", "ms", "mi", "mis", "st":
+	case "m", "ms", "mi", "mis", "st", "mnamed":
 		if len(v.K) != len(v.L) {
 			return false
 		}
@@ -898,12 +908,14 @@ func registerAll() {
 	registerPEM()
 	registerEnc()
 	registerMeta()
+	registerPrefix()
 	gen("time", genTime)
 	gen("parsekey", genParseKey)
 	gen("pem", genPEM)
 	gen("crypto", genCrypto)
 	gen("enc", genEnc)
 	gen("meta", genMeta)
+	gen("prefix", genPrefix)
 	gen("streams", genStreams)
 	gen("cron", genCron)
 	gen("scaling", genScaling)
